@@ -70,6 +70,12 @@ fn run_script(
     let want_proj = opts.get("proj").and_then(|v| v.as_bool()).unwrap_or(false);
     let cap = opts.get("cap").and_then(|v| v.as_u64()).unwrap_or(60000) as u16;
     let plain = opts.get("mode").and_then(|v| v.as_str()) == Some("plain");
+    // mode "block": the blocking stepper.  As the processing loop does, it stops ticking once
+    // can_block_update_idle_waiting returned true and resumes with the next input (`input; tick`); the ticks of the
+    // script that are not executed are written as {"e":"skip","n":k} (ignored by the monitors).
+    let block = opts.get("mode").and_then(|v| v.as_str()) == Some("block");
+    let mut blocked = false;
+    let mut skipped: u64 = 0;
     // proj_sparse (with proj): silent ticks that leave the projected state unchanged are run-length compressed
     let sparse = want_proj && opts.get("proj_sparse").and_then(|v| v.as_bool()).unwrap_or(false);
     let mut last_proj: Option<Value> = None;
@@ -95,12 +101,17 @@ fn run_script(
             "t" => {
                 let n = st[1].as_u64().unwrap_or(1);
                 for _ in 0..n {
+                    if block && blocked {
+                        skipped += 1;
+                        continue;
+                    }
                     let (idle, cb) = if plain {
                         sim.tick_plain()?;
                         (sim.k.is_idle(), false)
                     } else {
                         sim.tick()?
                     };
+                    blocked = cb;
                     let out = sim.drain(names);
                     let mut unchanged = false;
                     if sparse {
@@ -135,6 +146,11 @@ fn run_script(
             }
             "d" | "u" | "r" | "p" | "w" => {
                 flush!();
+                if skipped > 0 {
+                    writeln!(w, "{}", json!({"e":"skip","n":skipped})).map_err(|e| e.to_string())?;
+                    skipped = 0;
+                }
+                blocked = false;
                 let c = st[1].as_u64().unwrap_or(0) as u16;
                 sim.input(kind, c)?;
                 let out = sim.drain(names);
@@ -146,6 +162,7 @@ fn run_script(
             }
             "fk" => {
                 flush!();
+                blocked = false;
                 let y = st[1].as_u64().unwrap_or(0) as u16;
                 let op = st[2].as_str().unwrap_or("");
                 sim.fakekey(y, op)?;
@@ -156,6 +173,9 @@ fn run_script(
         }
     }
     flush!();
+    if skipped > 0 {
+        writeln!(w, "{}", json!({"e":"skip","n":skipped})).map_err(|e| e.to_string())?;
+    }
     Ok(())
 }
 
